@@ -633,4 +633,13 @@ theorem D3b_witness :
     transformText false [(['q','a'], ['z','n'])] ['q','a','.','q','a','.','f'] = ['z','n','.','z','n','.','f'] ∧
     transformText true [(['q','a'], ['z','n'])] ['q','a','.','q','a','.','f'] = ['z','n','.','q','a','.','f'] := by decide
 
+/-- C18-D7: `import qa.b` + body `qa . b.f` with `{qa.b: zn}` (with and without the dot guard): the import
+is renamed, the spaced reference is not; the unspaced one is. -/
+theorem D7_witness :
+    transformImport [(['q','a','.','b'], ['z','n'])] ⟨['q','a','.','b'], ['q','a','.','b']⟩
+      = ⟨['z','n'], ['z','n']⟩ ∧
+    transformText false [(['q','a','.','b'], ['z','n'])] ['q','a',' ','.',' ','b','.','f'] = ['q','a',' ','.',' ','b','.','f'] ∧
+    transformText true [(['q','a','.','b'], ['z','n'])] ['q','a',' ','.',' ','b','.','f'] = ['q','a',' ','.',' ','b','.','f'] ∧
+    transformText true [(['q','a','.','b'], ['z','n'])] ['q','a','.','b',' ','.',' ','f'] = ['z','n',' ','.',' ','f'] := by decide
+
 end Pfb.C18
